@@ -475,6 +475,45 @@ class Gen:
         self.subs, self.unsubs, self.ping = [], [], None
         self.waiter = None
 
+    def stall(self):
+        """the broker stops sending inside a packet (or inside the payload a BigMessage.ReadAll is reading): the client may
+        only wait as long as PauseTimeout permits, i.e. with a read deadline armed"""
+        r = self.r
+        if self.closed or self.waiter or not self.ensure_live():
+            return
+        qos = r.choice([0, 1, 2])
+        if self.bufsize and r.random() < 0.4:
+            # a message beyond the read buffer, read with ReadAll while the broker stalls in the payload
+            payload = bytes(r.randrange(256) for _ in range(self.bufsize * r.choice([2, 3])))
+            pk = mq.publish(qos, self.topic(), payload, r.choice([5, 6, 7]) if qos else 0)
+            cut = len(pk) - r.randrange(1, self.bufsize)
+            self.emit("feed %s block" % H(pk[:cut]))
+            if not self.reader_out:
+                self.emit("rs")
+            self.emit("readall")
+            # the session ends here: the call cannot return while the broker stalls and no time passes
+            self.closed = True
+            return
+        pk = mq.publish(qos, self.topic(), self.payload(False), r.choice([5, 6, 7]) if qos else 0)
+        if r.random() < 0.3:
+            pk = r.choice([mq.ack("puback", 0x8000), mq.suback(0x6000, [0]), mq.PINGRESP, mq.ack("pubrel", 9)])
+        cut = r.randrange(1, len(pk))
+        self.emit("feed %s block" % H(pk[:cut]))
+        if not self.reader_out:
+            self.emit("rs")
+            self.reader_out = True
+        what = r.choice(["rest", "rest", "tmo", "brk"])
+        if what == "rest":
+            self.emit("feed %s eof" % H(pk[cut:]))
+        elif what == "tmo":
+            self.emit("feed tmo tmo eof")
+        else:
+            self.emit("brk")
+        self.emit("rs")
+        self.link, self.parked, self.reader_out, self.doomed = "pending", False, False, False
+        self.subs, self.unsubs, self.ping = [], [], None
+        self.owed = False
+
     def close(self):
         r = self.r
         if self.closed:
@@ -709,8 +748,8 @@ class Gen:
         if r.random() < self.p.get("wrap", 0):
             self.wrapstore()
         n = r.randrange(*self.length)
-        acts = ["publish", "ack", "inbound", "connect", "fault", "restart", "call", "response", "hostile", "close", "damage", "blocked"]
-        w = [self.p[a] for a in acts]
+        acts = ["publish", "ack", "inbound", "connect", "fault", "restart", "call", "response", "hostile", "close", "damage", "blocked", "stall"]
+        w = [self.p.get(a, 0) for a in acts]
         for _ in range(n):
             a = r.choices(acts, weights=w, k=1)[0]
             getattr(self, a)()
